@@ -743,12 +743,15 @@ Section Sound.
           destruct (Sem.eval_binop OShr m (TInt sg b) (TInt sg b) (Sem.VInt a) (Sem.VInt s) len) as [[v l]| | |];
             try exact I; try contradiction. apply val_ok_in_rng. exact (proj1 HA).
       - (* a product with a literal operand: an ordinary checked product in Sem.v *)
-        destruct o; try discriminate Hop. destruct t as [|sg b| | | |]; try discriminate Hop. andb_all.
-        repeat match goal with H : sty_eqb _ _ = true |- _ => apply sty_eqb_eq in H end.
-        match goal with H1 : e_ty x = _, H2 : e_ty y = _ |- _ => rewrite H1 in Hvx |- *; rewrite H2 in Hvy end.
-        destruct (VOK_int _ _ _ Hvx) as (a & -> & Ha). destruct (VOK_int _ _ _ Hvy) as (c & -> & Hc).
-        cbn [Sem.eval_binop Sem.int_ty]. unfold Sem.checked.
-        destruct (Sem.in_range sg b (a * c)) eqn:Er; cbn [Sem.obind]; [exact Er|exact I].
+        destruct o; try discriminate Hop.
+        + destruct t as [|sg b| | | |]; try discriminate Hop. andb_all.
+          repeat match goal with H : sty_eqb _ _ = true |- _ => apply sty_eqb_eq in H end.
+          match goal with H1 : e_ty x = _, H2 : e_ty y = _ |- _ => rewrite H1 in Hvx |- *; rewrite H2 in Hvy end.
+          destruct (VOK_int _ _ _ Hvx) as (a & -> & Ha). destruct (VOK_int _ _ _ Hvy) as (c & -> & Hc).
+          cbn [Sem.eval_binop Sem.int_ty]. unfold Sem.checked.
+          destruct (Sem.in_range sg b (a * c)) eqn:Er; cbn [Sem.obind]; [exact Er|exact I].
+        + (* == on values of any one type: a Boolean *) destruct t; try discriminate Hop. reflexivity.
+        + (* != *) destruct t; try discriminate Hop. reflexivity.
     Qed.
 
     Lemma case_op fw g o x y m t en :
